@@ -108,3 +108,150 @@ K("_embed_time_series_array", "timeseries", props=("C07", "C15", "C20"),
                    "for kk in range(n_time-(dimension-1)*delay))",
                    "all(embedding[i,kk,j]==time_series_array[i,kk+j*delay] for kk in range(k))",
                    "index==j*delay+k", "len_embedded==n_time-(dimension-1)*delay"]})
+
+# ============================================================================ timeseries: visibility graphs
+def _vis_contract(name, has_t, inner, missing):
+    """Visibility criterion  V(a,b) = endpoints ok and all(inner(a,b,q) for a<q<b).
+    `inner` is a spec template over {a},{b},q.  With missing values (NaN-aware encoding) a
+    missing sample blocks visibility (as endpoint or in between)."""
+    def V(a, b):
+        body = inner.format(a=a, b=b)
+        if missing:
+            return (f"mv_indices[{a}]==0 and mv_indices[{b}]==0 and "
+                    f"all(mv_indices[q]==0 and {body} for q in range({a}+1,{b}))")
+        return f"all({body} for q in range({a}+1,{b}))"
+    adj = "iff(A[a,a+1]==1, mv_indices[a]==0 and mv_indices[a+1]==0)" if missing else "A[a,a+1]==1"
+    far = ("all(iff(A[a,b]==1, {V}) and (A[a,b]==0 or A[a,b]==1) and A[b,a]==A[a,b] "
+           "for a in range({hi}) for b in range(a+2,N))")
+    req = ["N>=0", "shape(x,0)==N", "shape(A,0)==N", "shape(A,1)==N",
+           "all(A[a,b]==0 for a in range(N) for b in range(N))"]
+    extra = {}
+    if has_t:
+        req += ["shape(t,0)==N", "all(t[a]<t[b] for a in range(N) for b in range(a+1,N))"]
+        # sl(a,q) names the slope expression of the code; its definition is the expression itself
+        extra = dict(ghost={"sl": ("int", "int", "float")},
+                     defs=["all(sl(a,q)==(x[q]-x[a])/(t[q]-t[a]) for a in range(N) for q in range(N))"])
+    if missing:
+        req += ["shape(mv_indices,0)==N", "all(mv_indices[a]==0 or mv_indices[a]==1 for a in range(N))",
+                "all(iff(mv_indices[a]==1, isnan(x[a])) for a in range(N))",
+                "all(not isnan(t[a]) for a in range(N))"]
+        extra["nan_aware"] = True
+    untouched = "all(A[a,b]==0 for a in range(N) for b in range(N) if (a>=i and b>=i) or a==b or a==b+1 or b==a+1)"
+    body_ij = inner.format(a="i", b="j")
+    wh = ["i+1<=k and k<=j"]
+    if missing:
+        wh += [f"all(mv_indices[q]==0 and {body_ij} for q in range(i+1,k))",
+               "implies(k>i+1, mv_indices[i]==0 and mv_indices[j]==0)"]
+    else:
+        wh += [f"all({body_ij} for q in range(i+1,k))"]
+    return K(name, "timeseries", props=("C14", "C20"), **extra,
+             requires=req,
+             ensures=[far.format(V=V("a", "b"), hi="N"),
+                      "all(" + adj + " and A[a+1,a]==A[a,a+1] for a in range(N-1))",
+                      "all(A[a,a]==0 for a in range(N))"],
+             loops={"i": [far.format(V=V("a", "b"), hi="i"), untouched],
+                    "i.j": [far.format(V=V("a", "b"), hi="i"), untouched.replace("(a>=i and b>=i)", "(a>i and b>i)"),
+                            "all(iff(A[i,b]==1, " + V("i", "b") + ") and (A[i,b]==0 or A[i,b]==1) and A[b,i]==A[i,b] for b in range(i+2,j))",
+                            "all(A[i,b]==0 and A[b,i]==0 for b in range(j,N))",
+                            "A[i,i]==0 and (i+1>=N or (A[i,i+1]==0 and A[i+1,i]==0))"],
+                    "i.j.while": wh,
+                    "i#2": [far.format(V=V("a", "b"), hi="N"),
+                            "all(" + adj + " and A[a+1,a]==A[a,a+1] for a in range(i))",
+                            "all(A[a,a+1]==0 and A[a+1,a]==0 for a in range(i,N-1))",
+                            "all(A[a,a]==0 for a in range(N))"]})
+
+
+_NVG = "sl({a},q) < sl({a},{b})"
+_HVG = "x[q] < min(x[{a}],x[{b}])"
+_vis_contract("_visibility_relations_no_missingvalues", True, _NVG, False)
+_vis_contract("_visibility_relations_horizontal", False, _HVG, False)
+_vis_contract("_visibility_relations_missingvalues", True, _NVG, True)
+
+# ============================================================================ timeseries: RQA line distributions
+def _line_contract(wrapper, vertical, black, sequential, missing):
+    """One instantiation of the generic `_line_dist` kernel, verified through its `def` wrapper with
+    the generic kernel (and, in sequential mode, `metric_supremum`) inlined - so the parameters each
+    wrapper passes (colour, line type, skip_main, metric) are part of what is verified.
+
+    Postcondition (the property's own words, "a direct run-length count of the matrix"):
+        hist[L-1] = hist0[L-1] + #{(line i, end position b) : MR(i,b,L)}
+    where MR(i,b,L) - "a maximal run of exactly L line cells of line i ends just before position b" -
+    is a non-recursive predicate over the matrix; the count is the ghost fold `cnt`/`tot` of the
+    indicator of MR (counting needs a recursive definition; MR itself does not mimic the code).
+    RUN invariant: k = length of the maximal block of line cells ending just before the current cell.
+    With missing values only index safety and the k/missing_flag protocol are claimed here."""
+    P = "inline:_line_dist"
+    if vertical:
+        I_of, J, outer = "{i}", "n_time", "n_time"
+        Jf = lambda i: "n_time"
+    else:
+        I_of, J, outer = "(n_time-1)-{i}+{j}", "(i+1)", "n_time-1"
+        Jf = lambda i: f"({i}+1)"
+    if sequential:
+        cellv = "(smax(" + I_of + ",{j},dim) < eps)"
+        if not black:
+            cellv = "(not " + cellv + ")"
+    else:
+        cellv = "(R[" + I_of + ",{j}]==1)" if black else "(R[" + I_of + ",{j}]==0)"
+
+    def CELL(i, j):
+        return cellv.format(i=i, j=j)
+    req = ["n_time>=0", "shape(hist,0)==n_time"]
+    ghost, defs = {}, []
+    if sequential:
+        req += ["dim>=1", "shape(E,0)==n_time", "shape(E,1)==dim"]
+        ghost = {"smax": ("int", "int", "int", "float")}
+        defs = ["all(smax(a,b,0)==0 for a in range(n_time) for b in range(n_time))",
+                "all(smax(a,b,l+1)==ite(abs(E[a,l]-E[b,l])>smax(a,b,l), abs(E[a,l]-E[b,l]), smax(a,b,l)) "
+                "for a in range(n_time) for b in range(n_time) for l in range(dim))"]
+    else:
+        req += ["shape(R,0)==n_time", "shape(R,1)==n_time"]
+    if missing:
+        req += ["shape(M,0)==n_time"]
+        loops = {f"{P}.i": ["k==0", "missing_flag==0", "N==" + outer, "shape(hist,0)==n_time"],
+                 f"{P}.i.j": ["0<=k and k<=j", "implies(missing_flag!=0, k==0)", "N==" + outer]}
+        if sequential:
+            loops[f"{P}.i.j.inline:metric_supremum.l"] = ["diff==smax(I,j,l)"]
+        return K(wrapper, "timeseries", props=("C08", "C20"), requires=req, ghost=ghost, defs=defs, loops=loops,
+                 checks=("bounds", "narrow", "divzero"))
+    # ---- ghost direct count
+    ghost.update({"cell": ("int", "int", "bool"), "MR": ("int", "int", "int", "bool"),
+                  "cnt": ("int", "int", "int", "int"), "tot": ("int", "int", "int")})
+    defs += [
+        # cell(a,q): cell q of line a is a line cell (colour / threshold predicate of this instantiation)
+        "all(iff(cell(a,q), " + CELL("a", "q") + ") for a in range(" + outer + ") for q in range(" + Jf("a") + "))",
+        # maximal run of exactly L cells ending just before position b (b = J: end of the line)
+        "all(iff(MR(a,b,L), b-L>=0 and all(cell(a,q) for q in range(b-L,b)) and (b-L==0 or not cell(a,b-L-1)) "
+        "and (b==" + Jf("a") + " or not cell(a,b))) "
+        "for a in range(" + outer + ") for b in range(1," + Jf("a") + "+1) for L in range(1,n_time+1))",
+        "all(cnt(a,1,L)==0 and cnt(a,0,L)==0 for a in range(" + outer + ") for L in range(1,n_time+1))",
+        "all(cnt(a,b+1,L)==cnt(a,b,L)+ite(MR(a,b,L),1,0) for a in range(" + outer + ") "
+        "for b in range(1," + Jf("a") + "+1) for L in range(1,n_time+1))",
+        "all(tot(0,L)==0 for L in range(1,n_time+1))",
+        "all(tot(a+1,L)==tot(a,L)+cnt(a," + Jf("a") + "+1,L) for a in range(" + outer + ") for L in range(1,n_time+1))",
+    ]
+    run = ["0<=k and k<=j", "all(cell(i,q) for q in range(j-k,j))", "implies(k<j, not cell(i,j-k-1))",
+           "missing_flag==0", "N==" + outer, "I==I or True"]
+    acc_outer = "all(hist[L-1]==old(hist[L-1])+tot(i,L) for L in range(1,n_time+1))"
+    acc_inner = "all(hist[L-1]==old(hist[L-1])+tot(i,L)+cnt(i,j,L) for L in range(1,n_time+1))"
+    loops = {f"{P}.i": ["k==0", "missing_flag==0", "N==" + outer, "shape(hist,0)==n_time", acc_outer],
+             f"{P}.i.j": run + [acc_inner]}
+    if sequential:
+        loops[f"{P}.i.j.inline:metric_supremum.l"] = ["diff==smax(I,j,l)"]
+    asserts = {"store:hist": ["idx0==k-1", "k>=1", "MR(i,j,k)"],
+               "store:hist#2": ["idx0==k-1", "k>=1", "MR(i," + J + ",k)"]}
+    return K(wrapper, "timeseries", props=("C08", "C20"), requires=req, ghost=ghost, defs=defs, loops=loops,
+             asserts=asserts,
+             ensures=["all(hist[L-1]==old(hist[L-1])+tot(" + outer + ",L) for L in range(1,n_time+1))"],
+             checks=("bounds", "narrow", "divzero"))
+
+
+_line_contract("_vertline_dist", True, True, False, False)
+_line_contract("_diagline_dist", False, True, False, False)
+_line_contract("_white_vertline_dist", True, False, False, False)
+_line_contract("_vertline_dist_sequential", True, True, True, False)
+_line_contract("_diagline_dist_sequential", False, True, True, False)
+_line_contract("_vertline_dist_missingvalues", True, True, False, True)
+_line_contract("_diagline_dist_missingvalues", False, True, False, True)
+_line_contract("_vertline_dist_sequential_missingvalues", True, True, True, True)
+_line_contract("_diagline_dist_sequential_missingvalues", False, True, True, True)
